@@ -80,7 +80,8 @@ def run(chk):
         wire_cmds.append('dssblob %d %d %d %d' % (rng.getrandbits(1024) | (1 << 1023), rng.getrandbits(160) | (1 << 159), rng.getrandbits(1023) + 2, rng.getrandbits(1023) + 2))
     wire_cmds += [sshgen.ec_blob_line(rng) for _ in range(12)]
     nwire = 0
-    for cmd, b in zip(wire_cmds, common.run_model(wire_cmds)):
+    wire_blobs = common.run_model(wire_cmds)
+    for cmd, b in zip(wire_cmds, wire_blobs):
         evals += 1
         blob = bytes.fromhex(b[3:])
         try:
@@ -101,6 +102,24 @@ def run(chk):
                 {'cmd': cmd, 'blob': blob.hex(), 'impl': got, 'reference': want}, None, True)
         seen.add(got[0])
     chk.coverage['wire_host_keys'] = len(wire_cmds)
+    # fingerprints are those of the blob the object composes now: read, replace the key, read again
+    try:
+        from cryptoparser.ssh.key import SshHostPublicKeyVariant
+        from harness import impl as _impl
+        for bits in (1024, 2048):
+            k1 = _impl.rsa_blob(65537, rng.getrandbits(bits) | 1 | (1 << (bits - 1)))
+            k2 = _impl.rsa_blob(3, rng.getrandbits(bits) | 1 | (1 << (bits - 1)))
+            b1, b2 = bytes(k1.key_bytes), bytes(k2.key_bytes)
+            first = dict(k1.fingerprints)
+            k1.public_key = k2.public_key
+            got = sorted(dict(k1.fingerprints).values())
+            want = sorted(expected_fingerprints(bytes(k1.key_bytes)).values())
+            if got != want:
+                chk.violation('host key read, edited and read again: fingerprints %s are not those of the blob it composes now %s (the first read gave %s)' % (
+                    got, want, sorted(first.values())), {'blob': b1.hex(), 'replaced_with': b2.hex(), 'impl': got, 'reference': want, 'kind': 'edit-after-read'}, None, True)
+                break
+    except ImportError:
+        pass
     # OpenSSH certificates (ssh-ed25519-cert-v01@openssh.com) with and without critical options / extensions: the blob of
     # the specification is parsed by the implementation; key_bytes must be the wire blob and the fingerprints its digests
     cert_cmds = [cert_cmd(rng) for _ in range(max(12, n // 8))]
